@@ -1,18 +1,18 @@
 CONSTANTS
-  Server = {1, 2, 3}
-  Campaigners = {1, 2, 3}
+  Server = {1, 2, 3, 4, 5}
+  Campaigners = {1, 3, 5}
   MaxTerm = 4
-  MaxProposals = 3
-  MaxCrashes = 2
-  MaxDrops = 2
-  MaxDups = 1
-  MaxHeartbeats = 2
-  MaxLog = 8
+  MaxProposals = 1
+  MaxCrashes = 0
+  MaxDrops = 0
+  MaxDups = 0
+  MaxHeartbeats = 0
+  MaxLog = 3
   MaxNet = 8
   MaxEnts = 0
-  LossySend = FALSE
-  SimDepth = 40
-  Script <- NoScript
+  LossySend = TRUE
+  SimDepth = 0
+  Script <- KeepMatchScript
   W_CommitAnyTerm = FALSE
   W_VoteIgnoreVoted = FALSE
   W_VoteIgnoreLog = FALSE
@@ -20,11 +20,11 @@ CONSTANTS
   W_AppendAlwaysTruncates = FALSE
   W_HeartbeatCommitUnbounded = FALSE
   W_QuorumMinusOne = FALSE
-  W_KeepMatchOnReset = FALSE
+  W_KeepMatchOnReset = TRUE
   PreVote = FALSE
   W_PreVoteRespCountsAsVote = FALSE
   ConfChange = FALSE
-  InitVoters = {1, 2, 3}
+  InitVoters = {1, 2, 3, 4, 5}
   AddVoters = {}
   RemoveVoters = {}
   MaxConfChanges = 0
@@ -34,4 +34,6 @@ CONSTANTS
 INIT Init
 NEXT Next
 CONSTRAINT NetBound
-INVARIANTS ElectionSafety LogMatching StateMachineSafety LeaderCompleteness CommitWithinLog PersistedMatchesVolatile MatchSound EmitSim
+VIEW view
+ACTION_CONSTRAINT Scripted
+INVARIANT EmitAttack
